@@ -36,7 +36,7 @@ BOUNDS = {
 }
 ASSUMPTIONS = [
   "certificate O1, stage 1: r_i = max(|g_i| - 32*eps32*(sum of magnitudes of the terms added into g_i), 0) is the part of the float64 gradient that float32 rounding cannot explain; pass if ||r||/(meaninertia*nv) <= K*tol or r'M^-1 r/2/(meaninertia*nv) <= K*tol (the solver's own two stopping quantities), K=20, tol = the tolerance MJWarp uses (max(opt.tolerance,1e-6))",
-  "certificate O1, stage 2 (only if stage 1 does not pass): an independent float64 damped-Newton minimisation of the same cost (mc/refs/cost.py:refine) gives q*; required cost(qacc)-cost(q*) <= K*tol/scale + 16*eps32*(sum of |cost terms|): the solver measures improvement as a difference of float32 costs (sums of ~20 rounded terms) and cannot resolve less (measured max on the unchanged tree: 8.1 eps32)",
+  "certificate O1, stage 2 (only if stage 1 does not pass): an independent float64 damped-Newton minimisation of the same cost (mc/refs/cost.py:refine) gives q*; required cost(qacc)-cost(q*) <= K*tol/scale + max(16, 2(nv+nefc))*eps32*(sum of |cost terms|): the solver measures improvement as a difference of two float32 costs, each a sum of nv+nefc rounded terms, and cannot resolve less than the worst-case summation error 2(n-1) eps32 (measured on the unchanged tree: 8.1 eps32 in the quick tier, 18.8 eps32 for Newton at cost 3.7e6 with n=17 in the thorough tier); where this certificate fails, O2 is judged with the measured gap instead of the allowance (the suboptimality is reported once)",
   "CG only: if stage 2 fails but MuJoCo's own CG (float64, tolerance 1e-8) is at least as far from the optimum of its own problem, the world passes (CG stops on per-iteration improvement, which does not bound the remaining gap on ill-conditioned cones); counted in certificate_cg_as_converged_as_mujoco",
   "if the ITERATIONS overflow bit is set the certificate is replaced by cost(qacc) <= cost(MuJoCo's qacc, same solver and iteration limit) + the same allowance (skipped if MuJoCo assembled a different number of rows)",
   "O2 allows 2e-3*(1+max|qacc_ref|) + sqrt(2*allowance*(M^-1)_ii) per dof (what a point within the allowed suboptimality may deviate by strong convexity) and is applied only where MuJoCo's rows have the same count as MJWarp's, MuJoCo raised no warning and MuJoCo's own qacc passes the certificate on MuJoCo's own problem",
@@ -177,7 +177,9 @@ def check_world(c, pre, mjm, m, d, w, overflow, mjd, tagkey, mjd_any=None, mjd_r
   # improvement as a difference of float32 costs, each a sum of nv+nefc (~20) rounded terms, i.e. uncertain by up to ~n/2 eps32
   # relative.  Measured on the unchanged tree (seeds 0-3): gap <= 8.1 eps32 * sum|cost terms| (CG stuck until the iteration cap).
   cmag = abs(ev["gauss"]) + (float(np.sum(np.abs(P.rows(ev["jar"])[2]))) if nefc else 0.0)
-  allow = K * tol / P.scale() + 16 * EPS32 * cmag
+  # a difference of two float32 sums of n = nv + nefc terms is uncertain by up to 2(n-1) eps32 * sum|terms| (worst-case summation
+  # bound); 16 is the floor calibrated on small problems
+  allow = K * tol / P.scale() + max(16, 2 * (P.M.shape[0] + nefc)) * EPS32 * cmag
   gap = 0.0
   if not (Gx <= K * tol or Sx <= K * tol):
     # stage 2: independent float64 minimisation of the same problem; cost(qacc) - cost(q*) is a lower bound of the true gap
@@ -204,7 +206,7 @@ def check_world(c, pre, mjm, m, d, w, overflow, mjd, tagkey, mjd_any=None, mjd_r
         c.fail(
           f"certificate:{tagkey}",
           f"{pre}qacc is not the optimum of MJWarp's own problem: cost {ev['cost']:.9g} vs float64 optimum {cstar:.9g} (gap {gap:.3g}, allowed {allow:.3g} = "
-          f"{K:g}*tol/scale + 16 eps32*{cmag:.3g}); scaled gradient {ev['gradient']:.3g}; max|qacc-q*| {np.max(np.abs(dq)):.3g} at dof {int(np.argmax(np.abs(dq)))}; "
+          f"{K:g}*tol/scale + {max(16, 2 * (P.M.shape[0] + nefc))} eps32*{cmag:.3g}); scaled gradient {ev['gradient']:.3g}; max|qacc-q*| {np.max(np.abs(dq)):.3g} at dof {int(np.argmax(np.abs(dq)))}; "
           f"niter {int(d.solver_niter.numpy()[w])}, nefc {nefc}",
         )
     else:
@@ -270,7 +272,9 @@ def check_world(c, pre, mjm, m, d, w, overflow, mjd, tagkey, mjd_any=None, mjd_r
     # class solver plus what the allowed suboptimality itself permits: a point whose cost is within `allow` of the minimum
     # lies within ||dq||_M <= sqrt(2 allow) of the optimum (strong convexity), i.e. |dq_i| <= sqrt(2 allow (M^-1)_ii)
     Minv = np.linalg.inv(P.M)
-    qallow = 2e-3 * (1 + np.max(np.abs(mjd.qacc))) + np.sqrt(2 * allow * np.maximum(np.diag(Minv), 0.0))
+    # where the certificate has just been reported as failed (gap > allow) the distance to MuJoCo is judged with the measured gap:
+    # the suboptimality is already a violation of its own, O2 then asks whether qacc is wrong beyond what that gap explains
+    qallow = 2e-3 * (1 + np.max(np.abs(mjd.qacc))) + np.sqrt(2 * max(allow, gap) * np.maximum(np.diag(Minv), 0.0))
     err = np.abs(qacc - np.asarray(mjd.qacc))
     c.nchecked += 1
     if np.any(err > qallow):
